@@ -178,30 +178,30 @@ Definition collision_free (H : string -> string) (D : string -> Prop) : Prop :=
 Section Names.
 Variable H : string -> string.
 
-Lemma hashes_eq : forall tpl fs, hashes H tpl fs = map H (contents fs ++ [tpl]).
-Proof. intros. unfold hashes, contents. rewrite map_app, map_map. reflexivity. Qed.
+Lemma file_hashes_eq : forall fs, file_hashes H fs = map H (contents fs).
+Proof. intros. unfold file_hashes, contents. rewrite map_map. reflexivity. Qed.
 
 (* order and names of the files are irrelevant *)
 Lemma name_perm : forall key tpl ver fs fs',
   Permutation (contents fs) (contents fs') -> exe_name_k H key tpl ver fs = exe_name_k H key tpl ver fs'.
 Proof.
-  intros key tpl ver fs fs' HP. unfold exe_name_k, name_input. f_equal. f_equal. f_equal.
-  apply sort_perm_eq. rewrite !hashes_eq. apply Permutation_map. apply Permutation_app_tail. exact HP.
+  intros key tpl ver fs fs' HP. unfold exe_name_k, name_input, name_input_f, hash_list. do 4 f_equal.
+  apply sort_perm_eq. rewrite !file_hashes_eq. apply Permutation_map. exact HP.
 Qed.
 
-(* template and file contents enter the name through the same sorted list *)
-Lemma name_tpl_swap : forall key ver f a b,
-  exe_name_k H key a ver [(f, b)] = exe_name_k H key b ver [(f, a)].
+(* before db4aa20: template and file contents entered the name through the same sorted list *)
+Lemma name_tpl_swap_old : forall ver f a b,
+  exe_name_old H a ver [(f, b)] = exe_name_old H b ver [(f, a)].
 Proof.
-  intros. unfold exe_name_k, name_input. f_equal. f_equal. f_equal. apply sort_perm_eq.
-  unfold hashes. simpl. apply perm_swap.
+  intros. unfold exe_name_old, name_input_f, hash_list. do 3 f_equal. apply sort_perm_eq.
+  unfold file_hashes. simpl. apply perm_swap.
 Qed.
 
-Lemma name_inj_full_refuted : exists tpl tpl' ver fs fs',
-  exe_name H tpl ver fs = exe_name H tpl' ver fs' /\ tpl <> tpl' /\ ~ Permutation (contents fs) (contents fs').
+Lemma name_inj_old_refuted : exists tpl tpl' ver fs fs',
+  exe_name_old H tpl ver fs = exe_name_old H tpl' ver fs' /\ tpl <> tpl' /\ ~ Permutation (contents fs) (contents fs').
 Proof.
   exists "A", "B", "go", [("f.go", "B")], [("f.go", "A")].
-  split; [apply name_tpl_swap|]. split; [discriminate|].
+  split; [apply name_tpl_swap_old|]. split; [discriminate|].
   simpl. intros HP. apply Permutation_length_1_inv in HP. discriminate HP.
 Qed.
 
@@ -209,29 +209,30 @@ Variable D : string -> Prop.
 Hypothesis H_shape : forall x, digest_ok (H x).
 Hypothesis H_cf : collision_free H D.
 
+(* the name determines the multiset of contents, the template and the version *)
 Lemma name_inj : forall tpl ver fs tpl' ver' fs',
   Forall D (hashed H tpl ver fs) -> Forall D (hashed H tpl' ver' fs') ->
   exe_name H tpl ver fs = exe_name H tpl' ver' fs' ->
-  Permutation (tpl :: contents fs) (tpl' :: contents fs') /\ ver = ver'.
+  Permutation (contents fs) (contents fs') /\ tpl = tpl' /\ ver = ver'.
 Proof.
   intros tpl ver fs tpl' ver' fs' HD HD' E. unfold exe_name, exe_name_k in E.
   unfold hashed in HD, HD'. inversion HD as [|? ? HDn HDr]; inversion HD' as [|? ? HDn' HDr']; subst.
-  apply H_cf in E; [|assumption|assumption]. unfold name_input in E.
+  apply H_cf in E; [|assumption|assumption]. unfold name_input, name_input_f, hash_list in E.
   destruct key_head as [k0 [kr [Ek Hk]]]. rewrite Ek in E.
-  assert (HF : forall t g, Forall digest_ok (sort_strings (hashes H t g))).
-  { intros t g. eapply Forall_perm; [apply Permutation_sym, sort_perm|].
-    rewrite hashes_eq. rewrite Forall_forall. intros d Hd. apply in_map_iff in Hd.
+  assert (HF : forall t g, Forall digest_ok (sort_strings (file_hashes H g) ++ [H t])).
+  { intros t g. apply Forall_app. split; [|constructor; [apply H_shape|constructor]].
+    eapply Forall_perm; [apply Permutation_sym, sort_perm|].
+    rewrite file_hashes_eq. rewrite Forall_forall. intros d Hd. apply in_map_iff in Hd.
     destruct Hd as [x [<- _]]. apply H_shape. }
   destruct (parse_unique k0 kr Hk _ _ _ _ (HF tpl fs) (HF tpl' fs') E) as [Es Ev].
-  split; [|exact Ev].
-  assert (HP : Permutation (hashes H tpl fs) (hashes H tpl' fs')).
+  apply app_inj_tail in Es. destruct Es as [Es Et].
+  pose proof (Forall_inv HDr) as HDt. pose proof (Forall_inv_tail HDr) as HDc.
+  pose proof (Forall_inv HDr') as HDt'. pose proof (Forall_inv_tail HDr') as HDc'.
+  split; [|split; [apply H_cf; assumption|exact Ev]].
+  assert (HP : Permutation (file_hashes H fs) (file_hashes H fs')).
   { eapply perm_trans; [apply Permutation_sym, sort_perm|]. rewrite Es. apply sort_perm. }
-  rewrite !hashes_eq in HP. apply perm_map_inj_on in HP.
-  - eapply perm_trans; [apply Permutation_cons_append|].
-    eapply perm_trans; [exact HP|apply Permutation_sym, Permutation_cons_append].
-  - rewrite Forall_forall in HDr, HDr'. intros x y Hx Hy. apply H_cf.
-    + apply HDr. apply in_app_or in Hx. destruct Hx as [Hx|[<-|[]]]; [right; exact Hx|left; reflexivity].
-    + apply HDr'. apply in_app_or in Hy. destruct Hy as [Hy|[<-|[]]]; [right; exact Hy|left; reflexivity].
+  rewrite !file_hashes_eq in HP. apply perm_map_inj_on in HP; [exact HP|].
+  rewrite Forall_forall in HDc, HDc'. intros x y Hx Hy. apply H_cf; [apply HDc; exact Hx|apply HDc'; exact Hy].
 Qed.
 
 Lemma name_inj_same_tpl : forall tpl ver fs ver' fs',
@@ -239,8 +240,8 @@ Lemma name_inj_same_tpl : forall tpl ver fs ver' fs',
   exe_name H tpl ver fs = exe_name H tpl ver' fs' ->
   Permutation (contents fs) (contents fs') /\ ver = ver'.
 Proof.
-  intros tpl ver fs ver' fs' HD HD' E. destruct (name_inj _ _ _ _ _ _ HD HD' E) as [HP Ev].
-  split; [eapply Permutation_cons_inv; exact HP|exact Ev].
+  intros tpl ver fs ver' fs' HD HD' E. destruct (name_inj _ _ _ _ _ _ HD HD' E) as [HP [_ Ev]].
+  split; assumption.
 Qed.
 End Names.
 
